@@ -201,8 +201,7 @@ def judge(cmd, vec, labels, res):
     if data != json.loads(exp_text):
         diff = [k for k in set(data) | set(exp) if data.get(k) != exp.get(k)]
         viols.append(V(P + ":main:served:differs-from-api", "argv %r: JSON differs from the library API result in %r" % (argv, sorted(diff))))
-    elif text.rstrip("\n") != exp_text:
-        viols.append(V(P + ":main:served:rendering", "argv %r: same data but not json.dumps(data, indent=4)" % (argv,)))
+    # how the JSON is laid out (indentation, key order) is not part of the property: only the data is compared
     for n in ("BIP44", "BIP49", "BIP84"):
         for row in data[n]["groups"]:
             if not ROW_PATH.match(row[0]):
